@@ -262,6 +262,31 @@ Proof.
   assert (p' = p) by (apply eqpf_full; auto). subst. auto.
 Qed.
 
+(** ** C02 / C03 stated directly for pseudo-legal and legal moves *)
+Theorem do_move_refines_pseudo t p m : WF t p -> In m (pseudo (abs p)) -> room p ->
+  exists p', do_move t p (code m) = Some p' /\ abs p' = make (abs p) m /\ fen_of p' = print (make (abs p) m).
+Proof.
+  intros W Hm Hr. destruct (do_move_refines t p m W (pseudo_move_ok t p W m Hm) Hr) as [Hdo Habs].
+  exists (do_move_raw t p (code m)). split; [exact Hdo|]. split; [exact Habs|]. unfold fen_of. now rewrite Habs.
+Qed.
+
+Theorem do_move_refines_legal t p m : WF t p -> In m (legal (abs p)) -> room p ->
+  exists p', do_move t p (code m) = Some p' /\ abs p' = make (abs p) m /\ fen_of p' = print (make (abs p) m).
+Proof. intros W Hm Hr. apply do_move_refines_pseudo; auto. apply legal_pseudo. exact Hm. Qed.
+
+Theorem undo_do_pseudo t p m : WF t p -> In m (pseudo (abs p)) -> room p ->
+  exists p1 p2, do_move t p (code m) = Some p1 /\ undo_move t p1 = Some p2 /\
+    observe_core t p2 = observe_core t p /\ i_flag p2 = i_flag p /\
+    (phval_nonneg t -> PhOK t p -> (clamp t = true -> (psum t (i_board p1) <= GamePhaseMax)%Z) -> p2 = p).
+Proof.
+  intros W Hm Hr. pose proof (pseudo_move_ok t p W m Hm) as Hmo.
+  destruct (do_move_refines t p m W Hmo Hr) as [Hdo _].
+  destruct (undo_do t p m (do_move_raw t p (code m)) W Hmo Hr (eqpf_refl _)) as (p2 & Hu & E & Ph).
+  exists (do_move_raw t p (code m)), p2. split; [exact Hdo|]. split; [exact Hu|].
+  destruct (eqpf_of_set_phase _ _ _ E) as [E' F]. split; [apply observe_core_eqpf; exact E'|]. split; [exact F|].
+  intros Hnn P Hb. apply eqpf_full; auto. apply Ph; auto. apply do_phase; auto.
+Qed.
+
 (** ** C04: separation of keys on the real tables.  Full injectivity of a 64-bit hash on more
     than 2^64 positions is impossible; what the dumped randoms do guarantee is that two positions
     differing in exactly one of: the content of one square, the side to move, the castling
@@ -560,6 +585,9 @@ Qed.
 Print Assumptions setup_inv.
 Print Assumptions do_move_refines.
 Print Assumptions do_moves_refines.
+Print Assumptions do_move_refines_pseudo.
+Print Assumptions do_move_refines_legal.
+Print Assumptions undo_do_pseudo.
 Print Assumptions pseudo_move_ok.
 Print Assumptions do_wf.
 Print Assumptions do_keyok.
